@@ -128,18 +128,25 @@ theorem addBin_nodup (bins : List CBin) (bin : Nat) (c : Chunk) (h : (bins.map (
 
 /-! ### one reference -/
 
+/-- the statistics `Add` accumulates over the records of one reference (`h` newest first) -/
+def statsOfC : List CRec → Option Stats
+  | [] => none
+  | r :: older => some (addStats (statsOfC older) r.chunk r.mapped)
+
 /-- what a CSI reference index knows about its records; `bf` is the bin of a record -/
 structure CRefInv (bf : CRec → Nat) (ref : CRef) (h : List CRec) : Prop where
   bins : ∀ r, r ∈ h → ∃ bn, bn ∈ ref.bins ∧ bn.bin = bf r ∧ r.chunk ∈ bn.chunks ∧ bn.left < r.chunk.e
   stored : ∀ bn, bn ∈ ref.bins → ∀ x, x ∈ bn.chunks → ∃ a, a ∈ h ∧ x = a.chunk
   leftLe : ∀ bn, bn ∈ ref.bins → ∃ a, a ∈ h ∧ bn.left ≤ a.chunk.b
   nodup : (ref.bins.map (·.bin)).Nodup
+  stats : ref.stats = statsOfC h
 
 theorem cRefInv_empty (bf : CRec → Nat) : CRefInv bf emptyRef [] :=
   { bins := by intro r hr; cases hr
     stored := by intro bn hb; cases hb
     leftLe := by intro bn hb; cases hb
-    nodup := List.nodup_nil }
+    nodup := List.nodup_nil
+    stats := rfl }
 
 theorem cRefInv_step (bf : CRec → Nat) (ms d : Nat) (ref : CRef) (h : List CRec) (last : Int) (r : CRec)
     (inv : CRefInv bf ref h) (hok : CRecOK ms d r) (hall : ∀ a, a ∈ h → CRecOK ms d a)
@@ -156,7 +163,8 @@ theorem cRefInv_step (bf : CRec → Nat) (ms d : Nat) (ref : CRef) (h : List CRe
   simp only [hnot, if_false]
   refine ⟨by trivial, by trivial, ?_⟩
   have hce := hok.ce
-  refine { bins := ?_, stored := ?_, leftLe := ?_, nodup := addBin_nodup _ _ _ inv.nodup }
+  refine { bins := ?_, stored := ?_, leftLe := ?_, nodup := addBin_nodup _ _ _ inv.nodup,
+           stats := (by simp only [statsOfC, inv.stats]) }
   · intro a ha
     rcases List.mem_cons.1 ha with rfl | ha
     · refine ⟨bn0, hbn0, hbin0, hc0, ?_⟩
@@ -438,6 +446,68 @@ theorem addAll_inv (binOf : Int → Int → Nat → Nat → Nat) (ms d : Nat) : 
       · simp only [addAll]
         rw [hfilter]
         exact h4
+
+/-! ### statistics -/
+
+/-- the true statistics of the records of one reference in the order they were added -/
+def specStatsC (h : List CRec) : Option Stats :=
+  match h.head?, h.getLast? with
+  | some first, some last =>
+    some ⟨⟨first.chunk.b, last.chunk.e⟩, h.countP (·.mapped), h.countP (fun r => !r.mapped)⟩
+  | _, _ => none
+
+theorem statsOfC_spec : ∀ h : List CRec, statsOfC h = specStatsC h.reverse := by
+  intro h
+  induction h with
+  | nil => rfl
+  | cons r older ih =>
+    simp only [statsOfC, ih, List.reverse_cons]
+    cases hrev : older.reverse with
+    | nil =>
+      cases hm : r.mapped <;> simp [specStatsC, addStats, hm]
+    | cons first rest =>
+      have hne : first :: rest ≠ [] := by simp
+      have hl : (first :: rest).getLast? = some ((first :: rest).getLast hne) := List.getLast?_eq_some_getLast hne
+      have hl2 : (first :: (rest ++ [r])).getLast? = some r := by
+        rw [← List.cons_append]; exact List.getLast?_concat
+      cases hm : r.mapped <;>
+        simp [specStatsC, addStats, hm, hl, hl2, List.countP_append, List.countP_cons] <;> omega
+
+theorem add_unmapped (binOf : Int → Int → Nat → Nat → Nat) (i : CIndex) (r : CRec)
+    (hv : validPos i.minShift i.depth r.start = true ∧ validPos i.minShift i.depth r.stop = true) :
+    (add binOf i r).1.unmapped = some (umCount i.unmapped + (if r.placed then 0 else 1)) ∧
+      (add binOf i r).1.minShift = i.minShift ∧ (add binOf i r).1.depth = i.depth := by
+  unfold add
+  simp only [hv.1, hv.2, Bool.and_self, Bool.not_true, Bool.false_eq_true, if_false]
+  cases hp : r.placed
+  · simp
+  · simp only [Bool.not_true, Bool.false_eq_true, if_false, if_true, Nat.add_zero]
+    split
+    · exact ⟨rfl, rfl, rfl⟩
+    · split
+      · exact ⟨rfl, rfl, rfl⟩
+      · split <;> exact ⟨rfl, rfl, rfl⟩
+
+theorem addAll_unmapped (binOf : Int → Int → Nat → Nat → Nat) (ms d : Nat) : ∀ (recs : List CRec) (i : CIndex),
+    i.minShift = ms → i.depth = d →
+    (∀ r, r ∈ recs → validPos ms d r.start = true ∧ validPos ms d r.stop = true) → recs ≠ [] →
+    (addAll binOf i recs).1.unmapped = some (umCount i.unmapped + recs.countP (fun r => !r.placed)) := by
+  intro recs
+  induction recs with
+  | nil => intro i _ _ _ h; exact absurd rfl h
+  | cons r rs ih =>
+    intro i hms hd hv _
+    subst hms; subst hd
+    obtain ⟨h1, h2, h3⟩ := add_unmapped binOf i r (hv r List.mem_cons_self)
+    simp only [addAll]
+    cases rs with
+    | nil =>
+      simp only [addAll, h1, List.countP_cons, List.countP_nil]
+      cases r.placed <;> simp
+    | cons r2 rs2 =>
+      rw [ih (add binOf i r).1 h2 h3 (fun x hx => hv x (List.mem_cons_of_mem _ hx)) (by simp), h1]
+      simp only [umCount, List.countP_cons]
+      cases r.placed <;> simp <;> omega
 
 /-! ### completeness of Chunks -/
 
